@@ -699,7 +699,7 @@ def r05_8(ctx, counts) -> RuleResult:
     from ..engine.srcmodel import walk_local
     model = ctx.model
     res = RuleResult(
-        'R05.8', 'NO-MEMO-OF-LAZY-SNAPSHOT',
+        'R05.9', 'NO-MEMO-OF-LAZY-SNAPSHOT',
         'Attribute and namespace nodes are built on first access; iter_lazy() (and a read of '
         '_attributes / _namespace_nodes guarded by hasattr) enumerates only the part of a tree '
         'built so far, which is the right thing for an identity test at the moment of the call '
@@ -749,7 +749,7 @@ def r05_8(ctx, counts) -> RuleResult:
             res.ok()
         else:
             g, node, depth = hit
-            res.fail(finding('R05.8', f, f.node, 'memo of a lazy snapshot',
+            res.fail(finding('R05.9', f, f.node, 'memo of a lazy snapshot',
                              f'{f.name} is memoised but computed from `{stmt_text(node)[:50]}` '
                              f'({g.key}, call depth {depth}), which enumerates only the '
                              f'attribute/namespace nodes built so far: nodes created after the '
